@@ -18,6 +18,7 @@ func checkC12(p *Program, r *Report) {
 	r.Rule("C12.route", "call graph", "Get -> SlimTrie.Get, RangeGet -> SlimTrie.RangeGet", 2)
 	r.Rule("C12.type", "types", "offset type produced by the index encoder = type asserted on lookup", 2)
 	r.Rule("C12.narrow", "E9", "no offset is narrowed without a bound that fits the narrower type", 0)
+	r.Rule("C12.all-items", "CFG", "every indexed item's key and offset are handed to the trie", 1)
 	rule := func(name string) {
 		for _, ri := range r.Rules {
 			if ri.Name == name {
@@ -227,6 +228,43 @@ func checkC12(p *Program, r *Report) {
 	}
 	if nBuilds == 0 {
 		r.Unk("index encoder", p.Pos(ctor.Pos()), "NewSlimIndex does not call NewSlimTrie")
+	}
+
+	// ---- every item reaches the trie: the de-duplicating trie chooses its branch positions from ALL keys
+	// of a block, also the de-duplicated ones, which is what routes every key of a block to that block.
+	// The loop that collects keys and offsets appends one of each on every iteration.
+	rule("C12.all-items")
+	{
+		var bad []string
+		nApp := 0
+		instrsOf(ctor, func(b *ssa.BasicBlock, in ssa.Instruction) {
+			call, ok := in.(*ssa.Call)
+			if !ok {
+				return
+			}
+			bi, ok := call.Call.Value.(*ssa.Builtin)
+			if !ok || bi.Name() != "append" {
+				return
+			}
+			sl, ok := call.Type().Underlying().(*types.Slice)
+			if !ok {
+				return
+			}
+			if !isStringType(sl.Elem()) && !isIntType(sl.Elem()) {
+				return
+			}
+			header := loopHeaderOf(b)
+			if header == nil {
+				return
+			}
+			nApp++
+			for i := range header.Preds {
+				if header.Dominates(header.Preds[i]) && !b.Dominates(header.Preds[i]) {
+					bad = append(bad, "the append at "+p.Pos(call.Pos())+" is skipped for some items: keys that never reach the trie are routed by the branch positions of the others")
+				}
+			}
+		})
+		r.Check(len(bad) == 0 && nApp >= 2, "index.NewSlimIndex hands every item to the trie", p.Pos(ctor.Pos()), fmt.Sprintf("%d appends in the item loop, each on every iteration", nApp), strings.Join(dedupStrings(sortStr(bad)), "; ")+fmt.Sprintf(" (%d appends found)", nApp))
 	}
 
 	// ---- narrowing: offsets are int64; a narrower leaf type needs a bound that fits it
